@@ -572,6 +572,16 @@ def main() -> int:
         print(text)
     if not p.exists() or p.read_text() != text:
         p.write_text(text)
+    import py2lean_filename  # noqa: E402
+
+    for fn, mod in ((py2lean_filename.translate_filename, "FileName"), (py2lean_filename.translate_composite_name, "CompositeName")):
+        text, problems = fn(Path(args.repo))
+        all_problems += ["[Gen.%s] %s" % (mod, x) for x in problems]
+        p = outdir / (mod + ".lean")
+        if args.print:
+            print(text)
+        if not p.exists() or p.read_text() != text:
+            p.write_text(text)
     for pr in all_problems:
         print("py2lean: " + pr)
     return 3 if all_problems else 0
